@@ -1,7 +1,7 @@
 (* Combinatorial model of marching squares (render/march2.go) over the regenerated tables:
    which segments a cell emits, in terms of GLOBAL vertex identities (a crossing = a lattice
    edge (x, y, axis)).  Segment i of a cell is  l[0] = points[table[2i+1]], l[1] = points[table[2i]].
-   sdeg l v = #(segments starting at v) - #(segments ending at v). *)
+   deg l v = number of segment end points equal to v. *)
 From Coq Require Import List ZArith NArith Lia Bool.
 From Sdfx Require Import Generated.MarchTables Render.Balance.
 Import ListNotations.
@@ -19,7 +19,6 @@ Proof.
   rewrite !andb_true_iff, !Z.eqb_eq. split; [intros [[-> ->] ->]; reflexivity | intros [= -> -> ->]; auto].
 Qed.
 
-Definition sdeg2 : list seg -> gv2 -> Z := sdeg gv2_eqb.
 Definition deg2 : list seg -> gv2 -> Z := deg gv2_eqb.
 
 (* ------------------------------------------------------------------ the cell *)
@@ -122,21 +121,21 @@ Definition ext2 (d : Z) (sg : N) : N :=
   if d =? 0
   then sq_of_bools (N.testbit sg 0) (N.testbit sg 0) (N.testbit sg 1) (N.testbit sg 1)
   else sq_of_bools (N.testbit sg 0) (N.testbit sg 1) (N.testbit sg 1) (N.testbit sg 0).
-(* canonical coefficient of a side signature: +1 a segment starts there, -1 one ends there *)
-Definition cpat (d : Z) (sg : N) : Z := sdeg2 (cell_lines (ext2 d sg)) (fvert d).
+(* canonical weight of a side signature: the number of segment end points the configuration
+   ext2 d sg puts on its lower side d (1 when the side is sign-changing, else 0).  Note that the
+   line table is NOT consistently directed (complementary configurations emit the same directed
+   segment), so only the undirected degree is meaningful in 2D. *)
+Definition xpat (d : Z) (sg : N) : Z := deg2 (cell_lines (ext2 d sg)) (fvert d).
 
 (* weighted vertex sums *)
 Definition wsum (m : list (gv2 * Z)) (v : gv2) : Z :=
   fold_right Z.add 0 (map (fun wc : gv2 * Z => if gv2_eqb v (fst wc) then snd wc else 0) m).
 Definition rhs2 (cfg : N) : list (gv2 * Z) :=
-  flat_map (fun d => [(fvert d, cpat d (sidesig d 0 cfg)); (shiftv2 (unit2 d) (fvert d), - cpat d (sidesig d 1 cfg))]) [0; 1].
-Definition urhs2 (cfg : N) : list (gv2 * Z) :=
-  flat_map (fun d => [(fvert d, Z.abs (cpat d (sidesig d 0 cfg))); (shiftv2 (unit2 d) (fvert d), Z.abs (cpat d (sidesig d 1 cfg)))]) [0; 1].
+  flat_map (fun d => [(fvert d, xpat d (sidesig d 0 cfg)); (shiftv2 (unit2 d) (fvert d), xpat d (sidesig d 1 cfg))]) [0; 1].
 Definition seg_verts (l : list seg) : list gv2 := map fst l ++ map snd l.
 Definition sq_cell_check (cfg : N) : bool :=
   let l := cell_lines cfg in
-  forallb (fun v => (sdeg2 l v =? wsum (rhs2 cfg) v) && (deg2 l v =? wsum (urhs2 cfg) v))
-          (seg_verts l ++ map fst (rhs2 cfg)).
+  forallb (fun v => deg2 l v =? wsum (rhs2 cfg) v) (seg_verts l ++ map fst (rhs2 cfg)).
 
 Lemma wsum_notin m v : ~ In v (map fst m) -> wsum m v = 0.
 Proof.
@@ -144,19 +143,18 @@ Proof.
   unfold wsum in *. cbn [map fold_right fst snd]. rewrite IH by tauto.
   destruct (gv2_eqb v w) eqn:E; [apply gv2_eqb_eq in E; subst; tauto | reflexivity].
 Qed.
-Lemma sdeg2_notin l v : ~ In v (seg_verts l) -> sdeg2 l v = 0 /\ deg2 l v = 0.
+Lemma deg2_notin l v : ~ In v (seg_verts l) -> deg2 l v = 0.
 Proof.
-  intros H. unfold sdeg2, deg2, sdeg, deg, starts, ends, seg_verts in *.
-  rewrite !(cnt_notin gv2_eqb gv2_eqb_eq); [split; reflexivity| |]; intro; apply H; apply in_or_app; tauto.
+  intros H. unfold deg2, deg, starts, ends, seg_verts in *.
+  rewrite !(cnt_notin gv2_eqb gv2_eqb_eq); [reflexivity| |]; intro; apply H; apply in_or_app; tauto.
 Qed.
 Lemma sq_cell_check_sound cfg : sq_cell_check cfg = true ->
-  forall v, sdeg2 (cell_lines cfg) v = wsum (rhs2 cfg) v /\ deg2 (cell_lines cfg) v = wsum (urhs2 cfg) v.
+  forall v, deg2 (cell_lines cfg) v = wsum (rhs2 cfg) v.
 Proof.
   unfold sq_cell_check. cbv zeta. rewrite forallb_forall. intros H v.
   destruct (in_dec (dec gv2_eqb gv2_eqb_eq) v (seg_verts (cell_lines cfg) ++ map fst (rhs2 cfg))) as [Hin|Hnin].
-  - specialize (H v Hin). apply andb_true_iff in H as [H1 H2]. apply Z.eqb_eq in H1, H2. now split.
+  - specialize (H v Hin). now apply Z.eqb_eq in H.
   - assert (N1 : ~ In v (seg_verts (cell_lines cfg))) by (intro; apply Hnin; apply in_or_app; tauto).
     assert (N2 : ~ In v (map fst (rhs2 cfg))) by (intro; apply Hnin; apply in_or_app; tauto).
-    assert (N3 : ~ In v (map fst (urhs2 cfg))) by exact N2.
-    destruct (sdeg2_notin _ _ N1) as [-> ->]. now rewrite !wsum_notin.
+    rewrite (deg2_notin _ _ N1). now rewrite wsum_notin.
 Qed.
